@@ -391,6 +391,13 @@ func (vlog *valueLog) rewrite(bucket uint32, fid uint32) error {
 		if diskVP.Fid > fid || (diskVP.Fid == fid && diskVP.Offset > ptr.Offset) {
 			return nil
 		}
+		// Only the record the LSM actually points at is live. A record the LSM points
+		// *before* (older file, or smaller offset in this file) was never applied (its
+		// batch died between the value-log append and the WAL append) and must not be
+		// brought back to life.
+		if diskVP.Fid != fid || diskVP.Offset != ptr.Offset {
+			return nil
+		}
 
 		ne := kv.EntryPool.Get().(*kv.Entry)
 		ne.IncrRef()
